@@ -378,7 +378,8 @@ inductive Found where
   | names (l : List String)
 
 /-- `view.search(probe, threshold=0, do_containment=True)`: the names of the sketches sharing a hash with the probe.
-    (SqliteIndex refuses an EMPTY query: `max()` of no hashes.) -/
+    (Whether SqliteIndex refuses an EMPTY query — `max()` of no hashes — or answers nothing is re-read from the source:
+    `Gen.ownSqliteFindRefusesEmptyQuery`.) -/
 def viewFind (w : World) (vc : ViewCell) : Found :=
   match probeOf w with
   | none => .noProbe
@@ -389,7 +390,8 @@ def viewFind (w : World) (vc : ViewCell) : Found :=
       if l.any (fun o => o.2.mh.maxHash != q.maxHash || o.2.mh.num != 0) then .mixed
       else if vc.kind == .sbt &&
           (sigCellsOf w vc.sigs).map (·.val.mh.mins) != vc.vals.map (·.mh.mins) then .stale
-      else if (vc.kind == .sqlite || vc.kind == .lcasql) && q.mins.isEmpty then .err "ValueError"
+      else if Gen.ownSqliteFindRefusesEmptyQuery && (vc.kind == .sqlite || vc.kind == .lcasql) && q.mins.isEmpty then
+        .err "ValueError"
       else .names ((l.filter (fun o => !(interL o.2.mh.mins q.mins).isEmpty)).map (·.2.name))
 
 /-! ### primitive effects -/
